@@ -8,8 +8,8 @@ lib/props_C04.py:
     PROP["modules"] += MODULES; PROP["theorems"] += THEOREMS; PROP["manifest"]["level_text"] += LEVEL_TEXT
 
 lean/Gnmi.lean must import Gnmi.Props.C05LRun, Gnmi.Lemmas.SubscribeRefinePoll and Gnmi.Props.C05Refine.
-Witness NOT in the corpus (the real server and the sequential model diverge on it — a defect of Model/Subscribe.lean's
-`eof`/`setGate`, see Gnmi.C05Refine.eof_held_differs): /var/tmp/bC05L/witness/eof_held.ops.
+Corpus: corpus/C05/eof_with_response_held.ops (a half-close while the sender holds a response: nothing more is delivered;
+Model/Subscribe.lean's `eof` was repaired to drop the held response; Gnmi.C05Refine.eof_held_agrees).
 """
 
 MODULES = [
@@ -46,8 +46,8 @@ THEOREMS = ["Gnmi.SubLTS." + t for t in [
     # C05L theorems transferred to SEQ-reachable states, and compared with the SEQ theorems
     "once_of_rel", "seq_once_concurrent", "once_agrees", "seq_never_sends_denied",
     "local_all_cnt", "poll_sim_cnt", "pollQuiet_of_rel", "seq_poll_round", "poll_round_agrees",
-    # where the two models differ (decided witness; the real server sides with the LTS)
-    "ended_sends_nothing", "eof_held_differs",
+    # a former difference, repaired in the sequential model: a half-close while a response is held
+    "ended_sends_nothing", "eof_held_agrees", "histEof_okHist",
     # non-vacuity
     "histP_okHist", "histP_run", "histP_mid", "okHist_append_left", "histP_okHist8",
 ]]
@@ -64,9 +64,9 @@ LEVEL_TEXT = (
     "call carries a request (Recv returning EOF first is not an LTS step) whose paths complete; Refine.StaleFree on cache calls "
     "(for an unregistered subscriber holding a handle queued: no update of that leaf is followed in the same call by a delete "
     "covering it — SEQ freezes the value held before the call, the leaf object holds the written one; decidable per history: "
-    "staleFree_of_B); a half-close finds no response held — eof_held_differs: there the two models differ (SEQ's eof leaves the held "
-    "response, setGate releases it after the RPC ended; LTS: ended_sends_nothing) and the real server sides with the LTS "
-    "(witness /var/tmp/bC05L/witness/eof_held.ops, not in the corpus: it is a divergence of Model/Subscribe.lean). Transfers: "
+    "staleFree_of_B). A half-close needs no side condition: a response held inside a gated Send when the client half-closes is "
+    "dropped in both models (Sub.eof was repaired to clear it, as Sub.expire does; LTS: ended_sends_nothing; eof_held_agrees; the real "
+    "server: corpus/C05/eof_with_response_held.ops). Transfers: "
     "seq_never_sends_denied (C07L.never_sends_denied for histories with subscribers of every mode); "
     "seq_once_concurrent (C05L.once_concurrent at every SEQ-reachable state: only syncs and updates of matched allowed keys, at most "
     "one sync, exactly one and last when ended OK; once_of_rel adds what only the LTS can say — values held during the call, keys "
